@@ -90,7 +90,7 @@ def compare_tokens(a, b):
     return None
 
 
-EDGE_FORMS = ['f\'{a:{f"{b:{c:{d}}}"}}\'', 'f\'{o:{a:{f"{b:{c}}"}}}\'', "f'{a:{b:{c}}}'", "f'{a:{b}{c:{d}}}'", 'f"{x:{f\'{y:{z}}\'}}"', 'f\'{f"{a:{b:{c}}}":{d:{e}}}\'', 'f"{f\'a\'} {x:\'>3}"', 'f"{f\'a\':\'>5}"', 'f"""{f"a"} {x:">3}"""', 'f\'{f"b"}{y:"^4}\'', "f'''{f'{q}'} {x:'<2}'''", 'rf"{f\'a\'}{x:\'>3}\\d"', 'f"{rf\'\\d\'} {x:\'>3}"', "f'{{{x:>5}}}'", "f'{x:{y:>5}}'", "f'{x:{y:{z}}}'", "f'{{{x}}}'", "f'{x:>5}}}'", "f'{{{x:{w}}}}}}'", "f'}}{x:}}}'", 'f"{a}\\\n{b}"', 'f"""\\\n{x} y"""', "f'{a}\\\n'", 'f"\\\n{a}\\\n"', 'f"say \\"hi\\" to \'{name}\'"', 'f\'it\\\'s "{x}"\'', 'f"\\t\'{a}\'\\"{b}\\""', 'f\'\'\'\\\'""{q}"\'\\n\'\'\'', 'f"\'{a}\' \\\\"']
+EDGE_FORMS = ['f\'{a:{f"{b:{c:{d}}}"}}\'', 'f\'{o:{a:{f"{b:{c}}"}}}\'', "f'{a:{b:{c}}}'", "f'{a:{b}{c:{d}}}'", 'f"{x:{f\'{y:{z}}\'}}"', 'f\'{f"{a:{b:{c}}}":{d:{e}}}\'', 'f"{f\'a\'} {x:\'>3}"', 'f"{f\'a\':\'>5}"', 'f"""{f"a"} {x:">3}"""', 'f\'{f"b"}{y:"^4}\'', "f'''{f'{q}'} {x:'<2}'''", 'rf"{f\'a\'}{x:\'>3}\\d"', 'f"{rf\'\\d\'} {x:\'>3}"', "f'{{{x:>5}}}'", "f'{x:{y:>5}}'", "f'{x:{y:{z}}}'", "f'{{{x}}}'", "f'{x:>5}}}'", "f'{{{x:{w}}}}}}'", "f'}}{x:}}}'", 'f"{a}\\\n{b}"', 'f"""\\\n{x} y"""', "f'{a}\\\n'", 'f"\\\n{a}\\\n"', 'f"say \\"hi\\" to \'{name}\'"', 'f\'it\\\'s "{x}"\'', 'f"\\t\'{a}\'\\"{b}\\""', 'f\'\'\'\\\'""{q}"\'\\n\'\'\'', 'f"\'{a}\' \\\\"', 'f\'{"""a\nb"""}\'', 'f\'<{"""\n""".join(rows)}>\'', 'f"{\'\'\'x\ny\'\'\'!r:>4}"', 'f\'{f"""a\n{b}"""}\'', 'f\'{a}{"""\n"""}{b:{"""w\n"""}}\'', 'rf\'{r"""\\\n"""}\\d\'', 'fR\'\\n{x}\'', 'Rf"\\t{x=}\\n"', 'FR\'\'\'\\d{y:\\d}\'\'\'', 'RF"{z!r}\\\\"']
 
 
 RUN_PIECES = ["''", "'x'", "f''", "f'{a}'", "f'\\\n'", "f'y'", "f'\\\nq'", "f'{a}\\\n'", "u'v'", "'''\n'''", "f'''{b}\n'''", 'f"{c}\\\n{d}"', "u''", 'r"\\"']
